@@ -196,9 +196,7 @@ class DryRunRenamer:
             or destination_key in self.created_paths
         ) and destination_key not in self.removed_paths
         if destination_exists and not override:
-            raise FileExistsError(
-                f"Destination file already exists: {destination_path}"
-            )
+            raise DestinationAlreadyExistsError(source_path, destination_path)
 
         self.removed_paths.add(source_key)
         self.created_paths.add(destination_key)
